@@ -10,3 +10,5 @@ mod k_id;
 mod k_fwd;
 #[cfg(kani)]
 mod k_spec;
+#[cfg(kani)]
+mod k_client;
